@@ -25,7 +25,7 @@ BUILD = os.path.join(VERIF, ".build")
 OUT = os.path.join(VERIF, "out")
 SPEC = os.path.join(VERIF, "spec")
 QXV = os.path.join(BUILD, "h", "qxv")
-NCPU = os.cpu_count() or 4
+NCPU = int(os.environ.get("VERIF_JOBS", "0")) or os.cpu_count() or 4
 TLA_CP = "/opt/veriftools/tla/tla2tools.jar:/opt/veriftools/tla/CommunityModules-deps.jar"
 
 
@@ -315,11 +315,14 @@ def tlc_trace(spec, cfg, trace_path, tag=None, timeout=3000, heap="8g", env=None
     return res
 
 
-def split_cases(trace_path):
-    """Executions of a trace file: dict case id -> list of lines (raw dicts), in file order."""
+def split_cases(trace_path, with_lines=False):
+    """Executions of a trace file: dict case id -> list of lines (raw dicts), in file order.
+    with_lines: each dict gets "_l" = its 1-based line number in the file (= TraceLog index)."""
     cases = {}
     cur = None
-    for o in read_ndjson(trace_path):
+    for n, o in enumerate(read_ndjson(trace_path), 1):
+        if with_lines:
+            o["_l"] = n
         if o.get("e") == "Reset":
             cur = str(o.get("case"))
             cases[cur] = []
